@@ -236,10 +236,11 @@ package redis
 
 //@ func (*Reader).ReadFull
 //@   prop C10 C11
-//@   requires readerRI(b) && 0 <= n
-//@   modifies b.r, b.w, b.err, b.buf[0:len(b.buf)], b.slice.allocs, b.slice.buf, b.slice.buf[0:len(b.slice.buf)]
-//@   ensures @ri readerRI(b)
-//@   ensures @exact result1 == nil && n > 0 ==> len(result0) == n
+//@   requires readerRI(b) && (b.err == nil ==> windowok(b)) && 0 <= n && disjoint(b.buf, b.slice.buf)
+//@   modifies b.r, b.w, b.err, b.buf[0:len(b.buf)], b.slice.allocs, b.slice.buf, b.slice.buf[0:len(b.slice.buf)], fetched
+//@   ensures @ri readerRI(b) && b.buf == old(b.buf) && b.rd == old(b.rd) && (b.err == nil ==> windowok(b)) && disjoint(b.buf, b.slice.buf)
+//@   ensures @exact result1 == nil && n > 0 ==> len(result0) == n && disjoint(result0, b.buf)
+//@   ensures @next-n-stream-bytes result1 == nil && n > 0 && old(b.err) == nil ==> b.err == nil && rpos(b) == old(rpos(b)) + n && forall k int :: 0 <= k && k < n ==> result0[k] == stream[src(b)][old(rpos(b)) + k]
 
 // ---- RESP decoder (C10 C11) ---------------------------------------------------------
 
